@@ -44,15 +44,39 @@ func Matches(pass *analysis.Pass, qs ...pattern.Pattern) iter.Seq2[ast.Node, *pa
 				continue
 			}
 
-			if len(q.RootCallSymbols) != 0 {
+			// The call index only knows calls of package-level functions and
+			// methods. Predeclared functions (symbols without a package path,
+			// such as "len") and types (whose "calls" are conversions) are
+			// not in it; patterns naming those have to look at all call
+			// expressions.
+			useCallIndex := len(q.RootCallSymbols) != 0
+			var objs []types.Object
+			if useCallIndex {
 				index := pass.ResultOf[typeindexanalyzer.Analyzer].(*typeindex.Index)
 				for _, isym := range q.RootCallSymbols {
+					if isym.Path == "" {
+						useCallIndex = false
+						break
+					}
 					var obj types.Object
 					if isym.Type == "" {
 						obj = index.Object(isym.Path, isym.Ident)
 					} else {
 						obj = index.Selection(isym.Path, isym.Type, isym.Ident)
 					}
+					if obj != nil {
+						if _, ok := obj.(*types.Func); !ok {
+							useCallIndex = false
+							break
+						}
+					}
+					objs = append(objs, obj)
+				}
+			}
+
+			if useCallIndex {
+				index := pass.ResultOf[typeindexanalyzer.Analyzer].(*typeindex.Index)
+				for _, obj := range objs {
 					for c := range index.Calls(obj) {
 						node := c.Node()
 						if m, ok := Match(pass, q, node); ok {
@@ -106,6 +130,12 @@ func CouldMatchAny(pass *analysis.Pass, qs ...pattern.Pattern) bool {
 			}
 			return true
 		case pattern.IndexSymbol:
+			if node.Path == "" {
+				// A symbol without a package path denotes a predeclared
+				// identifier such as "len". Those are not part of any
+				// package and cannot be used to reject one.
+				return true
+			}
 			if node.Type == "" {
 				return index.Object(node.Path, node.Ident) != nil
 			} else {
